@@ -216,11 +216,17 @@ func c06Take(m *diam.Message) (s c06Snap, err string) {
 			err = fmt.Sprint("panic while inspecting the retained message: ", r)
 		}
 	}()
+	// render first, then forward: re-serialising (what a relay does with a message it keeps) must
+	// not change the message either - in particular not the header it arrived with
+	str := fmt.Sprintf("%s | header %+v", m.String(), *m.Header)
 	b, e := m.Serialize()
 	if e != nil {
 		return s, e.Error()
 	}
-	return c06Snap{wire: b, str: m.String()}, ""
+	if after := fmt.Sprintf("%s | header %+v", m.String(), *m.Header); after != str {
+		return s, fmt.Sprintf("the retained message changed when it was re-serialised: before %q, after %q", clip(str), clip(after))
+	}
+	return c06Snap{wire: b, str: str}, ""
 }
 
 func c06Scenarios(tier string) []*Scenario {
